@@ -422,7 +422,7 @@ func TestConcurrentRounds(t *testing.T) {
 	}
 	roundCheck.Rapid(t, hx.N(160, 6000), func(rt *rapid.T) RoundCase {
 		var c RoundCase
-		f := sqlgen.AllFeatures()
+		f := sqlgen.FullFeatures()
 		f.MaxDepth = 2
 		nIn := rapid.IntRange(6, 30).Draw(rt, "inputs")
 		sizes := map[int]bool{}
